@@ -31,13 +31,20 @@ def observe(c):
     try:
         with warnings.catch_warnings():
             warnings.simplefilter("ignore")
-            tilt = (0.0, 0.0) if c["tilt"] == "none" else (5.0, 3.0)
+            tilt = {"none": (0.0, 0.0), "tilted": (5.0, 3.0),
+                    "tilt_distribution": (abtem.distributions.uniform(-5.0, 5.0, 3), 2.0),
+                    "tilt_pairs": np.array([[3.0, 0.0], [0.0, -4.0], [2.0, 2.0], [-1.0, 5.0]])}[c["tilt"]]
+            ab = dict(AB.get(c["ab"], {}))
+            if c["ab"] == "defocus_gaussian":
+                ab = {"defocus": abtem.distributions.gaussian(center=50.0, standard_deviation=30.0, num_samples=5, sampling_limit=2.0)}
+            elif c["ab"] == "cs_series":
+                ab = {"Cs": abtem.distributions.uniform(-1e6, 1e6, 3), "defocus": 40.0}
             if c["kind"] == "probe":
                 from abtem.core.energy import energy2wavelength
                 lam = energy2wavelength(100e3)
                 nyq = min(gpts[0] / extent[0], gpts[1] / extent[1]) / 2 * lam * 1e3
                 cutoff = {"small": 0.12 * nyq, "mid": 0.35 * nyq, "near_antialias": 0.63 * nyq, "beyond_antialias": 0.8 * nyq}[c["cutoff"]]
-                probe = abtem.Probe(energy=100e3, semiangle_cutoff=cutoff, soft=c["soft"], extent=extent, gpts=gpts, tilt=tilt, **AB[c["ab"]])
+                probe = abtem.Probe(energy=100e3, semiangle_cutoff=cutoff, soft=c["soft"], extent=extent, gpts=gpts, tilt=tilt, **ab)
                 sx, sy = extent[0] / gpts[0], extent[1] / gpts[1]
                 scan = {"origin": abtem.CustomScan(np.array([[0.0, 0.0]])), "off_grid": abtem.CustomScan(np.array([[2.37 * sx, 5.61 * sy]])),
                         "several": abtem.CustomScan(np.array([[0.0, 0.0], [1.5 * sx, 0.0], [3.3, 4.4]])),
@@ -83,7 +90,8 @@ def self_test(ctx: Ctx):
 def run(ctx: Ctx):
     quick = ctx.tier == "quick"
     ctx.rule = ("builds = grid (even/odd square, two rectangular) x cutoff class (small .. beyond the antialias aperture) x soft/hard x "
-                "aberration set (12: none, 9 single symbols with angles, 2 combinations) x tilt x position class (origin, off-grid, several, "
+                "aberration set (14: none, 9 single symbols with angles, 2 combinations, a Gaussian defocus distribution, a Cs series) x tilt "
+                "(none, scalar, one distribution + scalar, array of pairs) x position class (origin, off-grid, several, "
                 "outside the cell, grid scan) x lazy/eager, plus plane waves (normalised / raw x tilt x grid x lazy/eager), enumerated by "
                 "TLC; every member of every built ensemble is measured; non-trivial = every build")
     r = ctx.design_check("Norm", "Norm.cfg", label="build space", workers=1)
